@@ -1273,6 +1273,9 @@ class CircuitIR(AbstractBaseIR):
                     "instead, or rewrite the edge with the explicit "
                     "`past(x, tau)` notation."
                 )
+            # tell the solvers that the function arguments carry state (multi-stage schemes evaluate the vector field
+            # more than once per step)
+            be._stateful_args = True
 
         if verbose:
             print("\t\t...finished.")
